@@ -19,7 +19,7 @@ CONSTANTS
   MaxOps = 6
   MaxIds = 3
   MaxTasks = 6
-  RecBytes = 4
+  RecBytes = 5
   Advances = {1, 2}
   AsImplemented_SharedPeerBucket = TRUE
   AsImplemented_SwappedBurstRate = FALSE
